@@ -45,6 +45,7 @@ type Frame struct {
 	panicsC string // "panics when" condition evaluated at entry (top frame only)
 	entry   *State
 	loopFrames map[string]*loopFrame
+	measures map[*Loop]string
 }
 
 func (f *Frame) where(in ssa.Instruction) string {
@@ -284,7 +285,19 @@ func (vc *VC) execInstr(f *Frame, n *Node, in ssa.Instruction) {
 		switch in.Op {
 		case token.MUL:
 			vc.nilCheck(f, n, in, x)
-			f.setVal(in, n, vc.load(st, x, in.Type(), in.Name()))
+			lv := vc.load(st, x, in.Type(), in.Name())
+			if g, isGlobal := in.X.(*ssa.Global); isGlobal && in.Type().String() == "error" {
+				// package-level error values (ErrXxx, io.EOF) are initialised once and never nil
+				vc.note("standing: package-level variables of type error are non-nil and are never reassigned")
+				vc.assume(not(eq(lv.C[0], bvLit(tidBits, 0))))
+				// and they keep their entry value
+				ev := vc.loadPure(vc.entryOr(st), x, in.Type())
+				for k := range lv.C {
+					vc.assume(eq(lv.C[k], ev.C[k]))
+				}
+				_ = g
+			}
+			f.setVal(in, n, lv)
 		case token.NOT:
 			f.setVal(in, n, &SV{T: in.Type(), C: []string{not(x.C[0])}})
 		case token.SUB:
@@ -528,7 +541,13 @@ func (vc *VC) load(st *State, addr *SV, t types.Type, hint string) *SV {
 	}
 	vc.constrainSV(v)
 	vc.notSelf(t, v.C, addr.C[0])
+	if isInterface(t) && hasMethod(t, "Seek") {
+		v.File = true
+	}
 	if isInterface(t) {
+		if sh, ok := vc.shadow[addr.C[0]+"|"+addr.C[1]]; ok {
+			v.File = v.File || sh.File
+		}
 		if sh, ok := vc.shadow[addr.C[0]+"|"+addr.C[1]]; ok && sh.Exact && len(sh.Cands) > 0 {
 			v.Cands = append([]types.Type{}, sh.Cands...)
 		} else {
@@ -923,7 +942,7 @@ func (vc *VC) makeInterface(st *State, x *SV, it types.Type) *SV {
 		return &SV{T: it, C: []string{tid, x.C[0], x.C[1]}, Cands: []types.Type{t}, Exact: true, Sub: x.Sub}
 	}
 	if isInterface(t) {
-		return &SV{T: it, C: x.C, Cands: x.Cands, Exact: x.Exact}
+		return &SV{T: it, C: x.C, Cands: x.Cands, Exact: x.Exact, File: x.File}
 	}
 	// box (the payload is also remembered so that an unbox in the same VC needs no heap read)
 	ref := vc.allocRaw(st, "box")
@@ -1011,7 +1030,7 @@ func (vc *VC) typeAssert(f *Frame, n *Node, in *ssa.TypeAssert) *SV {
 		} else {
 			ok = vc.def("Bool", vc.implements(x, it, at.String()), "ok")
 		}
-		val = &SV{T: at, C: x.C, Cands: x.Cands, Exact: x.Exact, Sub: x.Sub}
+		val = &SV{T: at, C: x.C, Cands: x.Cands, Exact: x.Exact, Sub: x.Sub, File: x.File}
 	} else {
 		ok = vc.def("Bool", eq(x.C[0], vc.eng.typeID(at)), "ok")
 		val = vc.unbox(n.St, x, at)
@@ -1162,3 +1181,10 @@ func (vc *VC) modIdiom(a, b string) (string, bool) {
 }
 
 var traceOn = os.Getenv("GOVC_TRACE") == "2"
+
+func (vc *VC) entryOr(st *State) *State {
+	if vc.entry != nil {
+		return vc.entry
+	}
+	return st
+}
